@@ -39,6 +39,9 @@ ASSUMPTIONS = [
   "TLV/record value in place, is set to another valid value; excluded are demultiplexing keys, fields hdr() derives (lengths, checksums, "
   "tcp.off, ipv4.hl/raw_options), DHCP options (the option dictionary tracks shallow changes only, by design) and absent optional values; "
   "a parsed numeric gre.csum is set to True before re-packing, which is the documented way to have it recomputed",
+  "re-parenting clause (NAT / proxy pattern): the payload of a parsed and of a freshly assembled packet is attached under a newly built IP header "
+  "with other addresses (same IP version, keeping options / extension headers; the other IP version for TCP / UDP directly under Ethernet / VLAN, "
+  "with the ethertype updated by the caller); quoted datagrams inside ICMP errors are not re-addressed; the 802.3 length is the caller's",
 ]
 EXHAUSTIVE_SCOPE = {
   "quick": "the catalog of one minimal instance per protocol / message kind (pvf.ref.pktdissect.catalog), each with payload lengths 0, 1, 6, 7; "
